@@ -95,4 +95,16 @@ def sockaddrToNetAddr (ifs : IfTable) : SA → Option NetAddr
   | .inet6 port zone addr => some ⟨addr, port, zoneToString ifs zone⟩
   | .unix _ => none
 
+/-- `UnixAddrToSockaddr` as seen through `NetAddrToSockaddr`: the three Unix-domain networks convert (the name is
+    kept as it is), every other network yields nil -/
+def unixNetworks : List String := ["unix", "unixgram", "unixpacket"]
+
+def unixAddrToSockaddr (network name : String) : Option SA :=
+  if network ∈ unixNetworks then some (.unix name) else none
+
+/-- `SockaddrToTCPOrUnixAddr` for the Unix case: the name -/
+def sockaddrToUnixName : SA → Option String
+  | .unix n => some n
+  | _ => none
+
 end Gnet.Sockaddr
